@@ -90,6 +90,10 @@ def act_src(act, roots):
         s += f"[{sl[0]}]" if len(sl) == 1 else f"[{sl[0]}:{sl[1]}]"
     if act.get("view"):
         s += "." + VIEW_ATTR[act["view"]]
+    op = act.get("op")
+    if op:
+        sym = {"xor": "^", "and": "&", "or": "|", "addc": "+", "lt": "<", "eq": "=="}[op[0]]
+        s = f"({s} {sym} {op[1] if op[0] == 'addc' else act_src(op[1], roots)})"
     return s
 
 
@@ -185,6 +189,8 @@ def render_flat(spec):
                     act = inst["conn"][f]
                     src = act_src(act, roots)
                     aw = width(types[act["root"]]) if act.get("sl") is None else (1 if len(act["sl"]) == 1 else act["sl"][0] - act["sl"][1] + 1)
+                    if act.get("op") and act["op"][0] in ("lt", "eq"):
+                        aw = 1
                     if aw == width(p["ty"]):
                         cbind[f] = src
                         continue
